@@ -1,7 +1,8 @@
 #!/bin/bash
-# runs every seeded change against the check of the property it targets (and a few neighbours); prints a table
+# runs every seeded change against the check of the property it targets and the checks that were found (or expected) to notice it too;
+# prints one line per (change, check): rc=1 means detected
 cd /verif
-declare -A extra=( [C06-1]="C02" [C02-1]="C06" [C17-1]="C07" [C07-1]="C17" [C08-1]="C09" [C12-1]="C06" [C01-1]="C09 C05" )
+declare -A extra=( [C01-1]="C09 C05" [C01-2]="" [C02-1]="C06" [C02-2]="C06 C10" [C03-2]="" [C04-2]="C02 C06" [C05-1]="C01" [C05-2]="C06 C01" [C06-1]="C02" [C06-2]="C01" [C07-1]="C17" [C08-1]="C09" [C08-2]="C01" [C09-2]="C08" [C10-2]="C06" [C12-1]="C06" [C12-2]="C03 C06" [C16-2]="C05 C01" [C17-1]="C07" [C17-2]="C05 C01" )
 for d in seeded/*/; do
   n=$(basename $d); p=${n%%-*}
   tools/run_seeded.sh $n $p ${extra[$n]} 2>&1 | grep "rc="
